@@ -258,6 +258,8 @@ def gen_c16_seq(out_src, tier, seed, harnesses):
             if ln >= cap:
                 cand = [o for o in cand if o not in ("push", "push_front")]
             op = rnd.choice(cand)
+            if len(ops) < 2:
+                op = rnd.choice(["push", "push_front"])  # start from a non-empty stack
             ops.append(op)
             if op in ("push", "push_front"):
                 ln += 1
@@ -269,12 +271,19 @@ def gen_c16_seq(out_src, tier, seed, harnesses):
         lines = ["#[kani::proof]", "#[kani::unwind(10)]", "pub fn %s() {" % name,
                  "    let mut s: PushStack<i32> = PushStack::from_vec(Vec::with_capacity(MCAP + 1));",
                  "    let mut m = M { a: [0; MCAP], len: 0 };"]
+        ln = 0
         for op in ops:
-            if op == "remove":
-                inr = rnd.random() < 0.7
-                lines.append("    seq_remove(&mut s, &mut m, %s);" % ("true" if inr else "false"))
+            if op in ("remove", "yank", "shove"):
+                pos = rnd.randint(0, ln + 1)
+                lines.append("    seq_%s(&mut s, &mut m, %d);" % (op, pos))
+                if op == "remove" and pos < ln:
+                    ln -= 1
             else:
                 lines.append("    seq_%s(&mut s, &mut m);" % op)
+                if op in ("push", "push_front"):
+                    ln += 1
+                elif op in ("pop", "pop_front") and ln > 0:
+                    ln -= 1
         lines += ['    assert!(same(&s, &m), "contents differ from the sequence model after the sequence");',
                   '    kani::cover!(true, "reached end");', "    std::mem::forget(s);", "}"]
         out.append("\n".join(lines))
